@@ -450,11 +450,21 @@ fn shard(seed: u64, shard: u64, n: u64) -> Tally {
             // in the property text is relative to this declaration
             cfg.reqs = crate::props::c05::gen_reqs(&mut r).0;
         }
+        // (one parent in six carries up to 45 extra headers — 20 to 60 header lines with the repeated ones: grouping and
+        // ordering code that is only right for short lists shows there)
+        let many = i % 6 == 5;
         let o = GenOpts {
-            max_extra_headers: 8,
+            max_extra_headers: if many {
+                45
+            } else {
+                8
+            },
             ..Default::default()
         };
         let mut l = gen_logical(&mut r, &cfg, &o);
+        if many && l.extra.len() > 20 {
+            t.count("parents_with_more_than_20_extra_headers");
+        }
         // values with inner spaces and repeated names are what this property is about
         let blank_one = r.chance(1, 8);
         for (k, (_, vals)) in l.extra.iter_mut().enumerate() {
@@ -678,6 +688,7 @@ pub fn run(tier: Tier) -> i32 {
     if cfg!(feature = "unstable-api") {
         ctx.gate("second and later signed-subset questions to one CanonicalRequest (crate's unstable API) answered with the reference header block", tally.get("later_subset_questions_answered_with_the_reference_block"), tier.n(3000, 150_000));
     }
+    ctx.gate("parents with more than 20 extra headers (repeated names among them)", tally.get("parents_with_more_than_20_extra_headers"), tier.n(1000, 50_000));
     for k in NEUTRAL {
         // (the other-carrier kind applies to presigned parents whose algorithm parameter is spelled plainly in the URL only)
         let need = if k == "add-unsigned-other-carrier-input" {
@@ -692,7 +703,7 @@ pub fn run(tier: Tier) -> i32 {
     }
     let rep = Report {
         level: "exploration",
-        rule: "W-sign parents with up to 8 extra headers (visible ASCII, 0x80–0xFF, inner spaces, repeated names with 2–4 values) and random signed subsets; children by one wire-level change: neutral (name letter case, order between different names, outer spaces / longer inner space runs (up to 200 spaces) in signed values, unsigned-unrequired-unconsulted headers added / removed / altered / duplicated; every other parent is validated by a service that declares always-required, required-if-present and prefix requirements, and a header is added whose name is a near miss of a declared one: a proper prefix of a declared prefix, a declared name plus or minus a letter; an unsigned header that means something to S3, to proxies or to the other carrier — x-amz-content-sha256 with a real digest / UNSIGNED-PAYLOAD, content-md5, expect, x-amz-expires, x-amz-credential … — with the value it really carries; on presigned URLs, an unsigned token / date header of the header carrier) — must stay accepted; binding (every line of a signed header removed — also when its value was empty or blank —, a byte / an extra line of a signed Host, Content-Type or token header, Host with or without a default port or trailing dot, a byte of a signed value, appended byte, swap of two values of one signed name, dropped or duplicated value, a space moved into a token, an inner space removed, TAB for space) — must be refused. Plus, through the crate's `unstable` API, one CanonicalRequest asked for its canonical form and digest under 2–4 signed subsets in a row, each compared with the reference block for that subset. Two oracles: the parent/child relation (model-free; for neutral children also the provider's call arguments and the returned identity must equal the parent's) and the reference header block. Non-trivial = neutral child accepted / binding child refused with the signature-mismatch class; distinct by case hash.".into(),
+        rule: "W-sign parents with up to 8 — one in six with up to 45 — extra headers (visible ASCII, 0x80–0xFF, inner spaces, repeated names with 2–4 values) and random signed subsets; children by one wire-level change: neutral (name letter case, order between different names, outer spaces / longer inner space runs (up to 200 spaces) in signed values, unsigned-unrequired-unconsulted headers added / removed / altered / duplicated; every other parent is validated by a service that declares always-required, required-if-present and prefix requirements, and a header is added whose name is a near miss of a declared one: a proper prefix of a declared prefix, a declared name plus or minus a letter; an unsigned header that means something to S3, to proxies or to the other carrier — x-amz-content-sha256 with a real digest / UNSIGNED-PAYLOAD, content-md5, expect, x-amz-expires, x-amz-credential … — with the value it really carries; on presigned URLs, an unsigned token / date header of the header carrier) — must stay accepted; binding (every line of a signed header removed — also when its value was empty or blank —, a byte / an extra line of a signed Host, Content-Type or token header, Host with or without a default port or trailing dot, a byte of a signed value, appended byte, swap of two values of one signed name, dropped or duplicated value, a space moved into a token, an inner space removed, TAB for space) — must be refused. Plus, through the crate's `unstable` API, one CanonicalRequest asked for its canonical form and digest under 2–4 signed subsets in a row, each compared with the reference block for that subset. Two oracles: the parent/child relation (model-free; for neutral children also the provider's call arguments and the returned identity must equal the parent's) and the reference header block. Non-trivial = neutral child accepted / binding child refused with the signature-mismatch class; distinct by case hash.".into(),
         assumptions: vec!["'spaces' means 0x20 exactly; TAB is an ordinary value byte (DESIGN §6)".into()],
         extra: J::obj().set("calibrated_vectors", J::i(pre.unwrap_or(0) as i64)),
     };
